@@ -69,6 +69,7 @@ def emissions(fx, body):
             in_loop = any(bb in blocks for _h, blocks, _s in loops)
             presence = False
             value_conds = []
+            value_cond_terms = []
             for s_, tg, cond, lab in edges:
                 # decisive: the emission is reachable from this edge's target but some sibling edge avoids it for this iteration
                 if not (P.can_reach((tg, 0), (bb, 'term')) or (tg, 0) == P.norm((bb, 'term'))):
@@ -102,8 +103,10 @@ def emissions(fx, body):
                 if term_has(cond, lambda y: y[0] == 'call' and ('log::' in y[1] or y[1].startswith('log'))) or term_has(cond, lambda y: y[0] == 'const' and 'LevelFilter' in str(y[2])):
                     continue
                 value_conds.append(term_str(cond)[:100])
+                value_cond_terms.append((cond, lab))
             mult = 'all' if in_loop else ('option' if presence else 'first')
-            out.append({'pid': pid, 'ty': wty, 'mult': mult, 'fields': sorted(src_fields), 'value_conds': value_conds, 'where': b.where(bb), 'fn': b.key})
+            out.append({'pid': pid, 'ty': wty, 'mult': mult, 'fields': sorted(src_fields), 'value_conds': value_conds, 'value_cond_terms': value_cond_terms,
+                        'where': b.where(bb), 'fn': b.key})
     return out
 
 
